@@ -304,6 +304,8 @@ pub struct Case {
 	pub classes: Vec<String>,
 	pub total: usize,
 	pub starts: Vec<usize>,
+	/// Codec.tla: candidate boundaries at which `Silence` is enabled (SilenceOK)
+	pub silent: Vec<usize>,
 }
 
 impl Case {
@@ -325,7 +327,24 @@ impl Case {
 				.iter()
 				.map(|x| x.as_u64().unwrap() as usize)
 				.collect(),
+			silent: {
+				let mut v: Vec<usize> = v["silent"]
+					.as_array()
+					.map(|a| a.iter().map(|x| x.as_u64().unwrap() as usize).collect())
+					.unwrap_or_default();
+				v.sort();
+				v
+			},
 		}
+	}
+
+	/// SilenceOK of Codec.tla: a pause longer than the header timeout is inside the property's
+	/// quantifier between two frames and from the end of the 11 header bytes to the end of the frame.
+	pub fn silence_ok(&self, p: usize) -> bool {
+		self.frames.iter().enumerate().any(|(i, f)| {
+			let b = self.starts[i];
+			p == b || (p >= b + HDR && p < b + HDR + f.body + f.att)
+		})
 	}
 }
 
@@ -591,7 +610,7 @@ fn landmarks(case: &Case) -> Vec<usize> {
 	v
 }
 
-fn plans(case: &Case, rng: &mut StdRng, thorough: bool, idle: bool) -> Vec<Plan> {
+fn plans(case: &Case, rng: &mut StdRng, thorough: bool) -> Vec<Plan> {
 	let mut v = vec![Plan {
 		cuts: vec![],
 		gaps_us: vec![],
@@ -655,16 +674,240 @@ fn plans(case: &Case, rng: &mut StdRng, thorough: bool, idle: bool) -> Vec<Plan>
 			kind: "bytewise",
 		});
 	}
-	// the peer stays silent between two frames for longer than the header timeout
-	if idle && case.frames.len() >= 2 {
-		v.push(Plan {
-			cuts: vec![case.starts[1]],
-			gaps_us: vec![2_300_000],
-			sync: true,
-			kind: "idle",
-		});
-	}
 	v
+}
+
+/// The peer stays silent between two frames for longer than the header timeout.
+fn idle_plan(case: &Case) -> Plan {
+	Plan {
+		cuts: vec![case.starts[1]],
+		gaps_us: vec![2_300_000],
+		sync: true,
+		kind: "idle",
+	}
+}
+
+/// A place inside a frame (after its 11 header bytes) where the peer may go silent for longer
+/// than the header timeout: the body timeout governs there (Codec.tla: Silence with tmo = "body").
+struct GapCand {
+	ci: usize,
+	pos: usize,
+	group: String,
+}
+
+fn gap_candidates(case: &Case, rng: &mut StdRng, out: &mut Vec<GapCand>) {
+	if case.total > 200_000 {
+		return;
+	}
+	for (i, f) in case.frames.iter().enumerate() {
+		// only frames that are read to their end, behind frames that are read to their end
+		if !["msg", "headers", "unknown"].contains(&case.classes[i].as_str()) {
+			break;
+		}
+		let ord = if i == 0 { "first" } else { "later" };
+		let hb = case.starts[i] + HDR;
+		let e = hb + f.body;
+		let end = e + f.att;
+		let mut add = |pos: usize, region: &str| {
+			if pos < case.total && pos >= hb && pos < end.max(hb + 1) && case.silence_ok(pos) {
+				out.push(GapCand {
+					ci: case.id,
+					pos,
+					group: format!("{}:{}", region, ord),
+				});
+			}
+		};
+		if f.body > 0 {
+			add(hb, "hdr_end");
+		}
+		if case.classes[i] == "headers" {
+			if f.body >= 2 {
+				add(hb + 1, "count");
+			}
+			if f.items > 0 {
+				let j = rng.gen_range(0, f.items.min(32));
+				add(hb + 2 + j * 257 + rng.gen_range(1, 257), "item_batch1");
+				if f.items.min(32) > 1 {
+					add(hb + 2 + rng.gen_range(1, f.items.min(32)) * 257, "item_edge");
+				}
+			}
+			if f.items > 32 {
+				let j = rng.gen_range(32, f.items);
+				add(hb + 2 + j * 257 + rng.gen_range(0, 257), "item_later");
+			}
+		} else if f.body >= 2 {
+			add(hb + rng.gen_range(1, f.body), "body");
+			if f.body >= 3 {
+				add(e - 1, "body_last");
+			}
+		}
+		if f.att > 0 {
+			add(e, "att_start");
+			if f.att >= 2 {
+				add(e + rng.gen_range(1, f.att.min(48_000)), "att_chunk1");
+			}
+			if f.att > 48_001 {
+				add(e + rng.gen_range(48_001, f.att), "att_later");
+			}
+		}
+		// boundaries of the model at which Silence is enabled inside this frame
+		let inside: Vec<usize> = case.silent.iter().cloned().filter(|c| *c > hb && *c < end).collect();
+		if !inside.is_empty() {
+			add(inside[rng.gen_range(0, inside.len())], "model_cut");
+		}
+	}
+}
+
+/// Pick `n` silent-in-a-body runs spread over the groups (region of the frame x first/later frame).
+fn pick_gap_jobs(cases: &[Case], seed: u64, n: usize, double_every: usize) -> Vec<(usize, Plan, String)> {
+	let mut seedb = [0u8; 32];
+	seedb[..8].copy_from_slice(&seed.to_le_bytes());
+	seedb[8..16].copy_from_slice(b"bodygap!");
+	let mut rng: StdRng = SeedableRng::from_seed(seedb);
+	let mut cands = vec![];
+	for c in cases {
+		gap_candidates(c, &mut rng, &mut cands);
+	}
+	let mut groups: std::collections::BTreeMap<String, Vec<GapCand>> = Default::default();
+	for c in cands {
+		groups.entry(c.group.clone()).or_default().push(c);
+	}
+	let mut keys: Vec<String> = groups.keys().cloned().collect();
+	// seeded rotation so that different seeds start with different groups
+	if !keys.is_empty() {
+		let r = rng.gen_range(0, keys.len());
+		keys.rotate_left(r);
+	}
+	let mut jobs: Vec<(usize, Plan, String)> = vec![];
+	let mut used = std::collections::HashSet::new();
+	let mut round = 0;
+	while jobs.len() < n && round < 64 {
+		for k in &keys {
+			if jobs.len() >= n {
+				break;
+			}
+			let g = &groups[k];
+			let c = &g[rng.gen_range(0, g.len())];
+			if !used.insert((c.ci, c.pos)) {
+				continue;
+			}
+			let mut cuts = vec![c.pos];
+			let mut gaps = vec![rng.gen_range(2_300_000, 2_600_001)];
+			// now and then a second silence later in the same stream (a body or a frame boundary)
+			if double_every > 0 && jobs.len() % double_every == double_every - 1 {
+				let later: Vec<usize> = cases[c.ci].silent.iter().cloned().filter(|p| *p > c.pos + 1).collect();
+				if !later.is_empty() {
+					cuts.push(later[rng.gen_range(0, later.len())]);
+					gaps.push(rng.gen_range(2_300_000, 2_600_001));
+				}
+			}
+			jobs.push((
+				c.ci,
+				Plan {
+					cuts,
+					gaps_us: gaps,
+					sync: true,
+					kind: "bodygap",
+				},
+				k.clone(),
+			));
+		}
+		round += 1;
+	}
+	jobs
+}
+
+/// Render a case to bytes (layout checked against the model's offsets).
+fn render_case(case: &Case, pool: &Pool) -> Result<(Vec<Sent>, Vec<u8>), String> {
+	let sent: Vec<Sent> = case.frames.iter().enumerate().map(|(fi, f)| render(f, fi, pool)).collect();
+	let mut stream: Vec<u8> = vec![];
+	for (fi, f) in case.frames.iter().enumerate() {
+		if sent[fi].bytes.len() != HDR + f.body + f.att || stream.len() != case.starts[fi] {
+			return Err(format!("layout of frame {} differs from the model", fi));
+		}
+		stream.extend_from_slice(&sent[fi].bytes);
+	}
+	if stream.len() != case.total {
+		return Err("total length differs from the model".into());
+	}
+	Ok((sent, stream))
+}
+
+struct Shared {
+	results: Mutex<Vec<Value>>,
+	/// 0 runs, 1 single, 2 multi, 3 idle, 4 timeouts seen, 5 writer-checked frames, 6 max alloc, 7 bytes,
+	/// 8 bodygap runs, 9 timeouts seen in bodygap runs
+	counters: Vec<AtomicUsize>,
+	voids: AtomicUsize,
+	gap_groups: Mutex<std::collections::BTreeMap<String, usize>>,
+}
+
+/// One plan on one stream: run (repeating void runs), compare, report.  Returns true on a mismatch.
+fn exec_plan(
+	sh: &Shared,
+	listener: &TcpListener,
+	case: &Case,
+	sent: &[Sent],
+	stream: &[u8],
+	plan: &Plan,
+	version: u32,
+	corrupt: bool,
+	report: bool,
+) -> bool {
+	// A run in which the machine stalled (an unplanned pause of a second, or a read
+	// timeout although the peer was never silent) is outside the property's
+	// quantifier ("within the I/O timeouts"): it is void and repeated.
+	let silent = plan.gaps_us.iter().any(|g| *g >= 1_500_000);
+	let mut out = run_once(listener, stream, plan, version);
+	let mut attempts = 1;
+	while (out.max_gap_ms > 1000 || (!silent && out.read.timeouts > 0) || out.io_error.is_some()) && attempts < 4 {
+		sh.voids.fetch_add(1, Ordering::Relaxed);
+		out = run_once(listener, stream, plan, version);
+		attempts += 1;
+	}
+	if out.io_error.is_none() && (out.max_gap_ms > 1000 || (!silent && out.read.timeouts > 0)) {
+		out.io_error = Some(format!(
+			"stalled run (gap {} ms, {} timeouts) 4 times",
+			out.max_gap_ms, out.read.timeouts
+		));
+	}
+	let c = &sh.counters;
+	c[0].fetch_add(1, Ordering::Relaxed);
+	c[7].fetch_add(stream.len(), Ordering::Relaxed);
+	match plan.kind {
+		"single" => c[1].fetch_add(1, Ordering::Relaxed),
+		"multi" | "bytewise" => c[2].fetch_add(1, Ordering::Relaxed),
+		"idle" => c[3].fetch_add(1, Ordering::Relaxed),
+		"bodygap" => {
+			c[9].fetch_add(out.read.timeouts as usize, Ordering::Relaxed);
+			c[8].fetch_add(1, Ordering::Relaxed)
+		}
+		_ => 0,
+	};
+	c[4].fetch_add(out.read.timeouts as usize, Ordering::Relaxed);
+	c[6].fetch_max(out.read.max_alloc, Ordering::Relaxed);
+	if corrupt {
+		// self-test of the comparison: pretend the codec returned one result less
+		if out.read.obs.len() >= 2 {
+			out.read.obs.remove(0);
+		}
+	}
+	if let Some(m) = compare(case, sent, stream, &out) {
+		if report {
+			let f = &case.frames[m.fi];
+			sh.results.lock().unwrap().push(json!({
+				"case": case.id, "what": m.what, "detail": m.detail, "frame": m.fi,
+				"k": f.k, "t": f.t, "count": f.count, "items": f.items, "class": case.classes[m.fi],
+				"label": f.label(),
+				"plan": {"cuts": plan.cuts, "gaps_us": plan.gaps_us, "sync": plan.sync, "version": version, "kind": plan.kind},
+				"observed": out.read.obs.iter().map(|o| o.brief()).collect::<Vec<_>>(),
+				"read_timeouts": out.read.timeouts,
+				"leftover": out.leftover.len(), "bytes_read": out.read.bytes_read,
+			}));
+		}
+		return true;
+	}
+	false
 }
 
 pub fn replay(args: &Args) -> i32 {
@@ -683,35 +926,75 @@ pub fn replay(args: &Args) -> i32 {
 		.collect();
 	let cases = Arc::new(cases);
 	let next = Arc::new(AtomicUsize::new(0));
-	let results: Arc<Mutex<Vec<Value>>> = Arc::new(Mutex::new(vec![]));
-	let stats = Arc::new(Mutex::new(json!({})));
-	let counters: Vec<Arc<AtomicUsize>> = (0..8).map(|_| Arc::new(AtomicUsize::new(0))).collect();
-	// 0 runs, 1 single, 2 multi, 3 idle, 4 timeouts seen, 5 writer-checked frames, 6 max alloc, 7 bytes
-	// how many streams get the idle (2.3 s silent) plan
-	// the streams that additionally get the silent-peer plan: spread evenly over the eligible ones
-	let eligible: Vec<usize> = cases
-		.iter()
-		.filter(|c| c.frames.len() >= 2 && c.total <= 4000 && c.expect.len() >= 2)
-		.map(|c| c.id)
-		.collect();
-	let want_idle = if thorough { 32 } else { 12 };
-	let step = (eligible.len() / want_idle).max(1);
-	let idle_set: Arc<std::collections::HashSet<usize>> = Arc::new(
-		eligible
+	let sh = Arc::new(Shared {
+		results: Mutex::new(vec![]),
+		counters: (0..10).map(|_| AtomicUsize::new(0)).collect(),
+		voids: AtomicUsize::new(0),
+		gap_groups: Mutex::new(Default::default()),
+	});
+
+	// ---- runs with a silent peer (2.3 - 2.6 s): they mostly sleep, so they get their own threads
+	// and overlap with everything else.
+	let mut slow: Vec<(usize, Plan)> = vec![];
+	if only_plan.is_none() && !corrupt {
+		// (a) silence between two frames, spread evenly over the eligible streams
+		let eligible: Vec<usize> = cases
+			.iter()
+			.filter(|c| c.frames.len() >= 2 && c.total <= 4000 && c.expect.len() >= 2)
+			.map(|c| c.id)
+			.collect();
+		let want_idle = if thorough { 32 } else { 12 };
+		let step = (eligible.len() / want_idle).max(1);
+		for ci in eligible
 			.iter()
 			.enumerate()
 			.filter(|(j, _)| (j + seed as usize) % step == 0)
 			.map(|(_, c)| *c)
 			.take(want_idle + 2)
-			.collect(),
-	);
-	let voids = Arc::new(AtomicUsize::new(0));
+		{
+			slow.push((ci, idle_plan(&cases[ci])));
+		}
+		// (b) silence in the middle of a body / a header item / an attachment chunk
+		let gaps = pick_gap_jobs(&cases, seed, if thorough { 72 } else { 28 }, if thorough { 4 } else { 7 });
+		for (ci, p, g) in gaps {
+			*sh.gap_groups.lock().unwrap().entry(g).or_insert(0) += 1;
+			slow.push((ci, p));
+		}
+	}
+	let slow = Arc::new(slow);
+	let slow_next = Arc::new(AtomicUsize::new(0));
 	let mut hs = vec![];
+	for _ in 0..slow.len().min(48) {
+		let (cases, slow, slow_next, sh, pool) = (cases.clone(), slow.clone(), slow_next.clone(), sh.clone(), pool.clone());
+		hs.push(thread::spawn(move || {
+			let listener = TcpListener::bind("127.0.0.1:0").expect("bind loopback");
+			loop {
+				let j = slow_next.fetch_add(1, Ordering::SeqCst);
+				if j >= slow.len() {
+					break;
+				}
+				let (ci, plan) = &slow[j];
+				let case = &cases[*ci];
+				let (sent, stream) = match render_case(case, &pool) {
+					Ok(x) => x,
+					Err(_) => continue, // reported by the main pass
+				};
+				// every pause of these plans must be one that the model allows
+				for (c, g) in plan.cuts.iter().zip(plan.gaps_us.iter()) {
+					if *g >= 1_500_000 && !case.silence_ok(*c) {
+						sh.results.lock().unwrap().push(json!({"case": ci, "what": "render", "detail": format!("silent cut {} outside SilenceOK", c),
+							"k": case.frames[0].k, "t": case.frames[0].t, "label": case.frames[0].label(), "plan": {}}));
+					}
+				}
+				let version = VERSIONS[(ci + j) % 4];
+				exec_plan(&sh, &listener, case, &sent, &stream, plan, version, false, true);
+			}
+		}));
+	}
+
+	// ---- the main pass: every stream under the single / multi / bytewise fragmentations
 	for w in 0..threads {
-		let (cases, next, results, pool, tmp) = (cases.clone(), next.clone(), results.clone(), pool.clone(), tmp.clone());
-		let counters = counters.clone();
-		let idle_set = idle_set.clone();
-		let voids = voids.clone();
+		let (cases, next, sh, pool, tmp) = (cases.clone(), next.clone(), sh.clone(), pool.clone(), tmp.clone());
 		let only_plan = only_plan.clone();
 		hs.push(thread::spawn(move || {
 			let listener = TcpListener::bind("127.0.0.1:0").expect("bind loopback");
@@ -726,45 +1009,36 @@ pub fn replay(args: &Args) -> i32 {
 				seedb[8..16].copy_from_slice(&(ci as u64).to_le_bytes());
 				let mut rng: StdRng = SeedableRng::from_seed(seedb);
 				// render, and check the rendering against the repository's own writer
-				let sent: Vec<Sent> = case
-					.frames
-					.iter()
-					.enumerate()
-					.map(|(fi, f)| render(f, fi, &pool))
-					.collect();
-				let mut stream: Vec<u8> = vec![];
 				let mut bad_render = None;
-				for (fi, f) in case.frames.iter().enumerate() {
-					if sent[fi].bytes.len() != HDR + f.body + f.att || stream.len() != case.starts[fi] {
-						bad_render = Some(format!("layout of frame {} differs from the model", fi));
-					}
-					if let Some(r) = real_writer_bytes(f, fi, &pool, VERSIONS[(ci + fi) % 4], &tmp) {
-						counters[5].fetch_add(1, Ordering::Relaxed);
-						match r {
-							Ok(b) if b == sent[fi].bytes => {}
-							Ok(b) => {
-								bad_render = Some(format!(
-									"write_message produced {} bytes, model layout {} ({})",
-									b.len(),
-									sent[fi].bytes.len(),
-									f.label()
-								))
+				let rendered = render_case(case, &pool);
+				if let Ok((sent, _)) = &rendered {
+					for (fi, f) in case.frames.iter().enumerate() {
+						if let Some(r) = real_writer_bytes(f, fi, &pool, VERSIONS[(ci + fi) % 4], &tmp) {
+							sh.counters[5].fetch_add(1, Ordering::Relaxed);
+							match r {
+								Ok(b) if b == sent[fi].bytes => {}
+								Ok(b) => {
+									bad_render = Some(format!(
+										"write_message produced {} bytes, model layout {} ({})",
+										b.len(),
+										sent[fi].bytes.len(),
+										f.label()
+									))
+								}
+								Err(e) => bad_render = Some(format!("write_message failed: {} ({})", e, f.label())),
 							}
-							Err(e) => bad_render = Some(format!("write_message failed: {} ({})", e, f.label())),
 						}
 					}
-					stream.extend_from_slice(&sent[fi].bytes);
 				}
-				if stream.len() != case.total {
-					bad_render = Some("total length differs from the model".into());
-				}
-				if let Some(e) = bad_render {
-					results.lock().unwrap().push(json!({"case": ci, "what": "render", "detail": e,
-						"k": case.frames[0].k, "t": case.frames[0].t, "label": case.frames[0].label(), "plan": {}}));
-					continue;
-				}
-				let idle = idle_set.contains(&ci);
-				let mut ps = plans(case, &mut rng, thorough, idle);
+				let (sent, stream) = match (rendered, bad_render) {
+					(Ok(x), None) => x,
+					(Err(e), _) | (_, Some(e)) => {
+						sh.results.lock().unwrap().push(json!({"case": ci, "what": "render", "detail": e,
+							"k": case.frames[0].k, "t": case.frames[0].t, "label": case.frames[0].label(), "plan": {}}));
+						continue;
+					}
+				};
+				let mut ps = plans(case, &mut rng, thorough);
 				if let Some(p) = &only_plan {
 					ps = vec![Plan {
 						cuts: p["cuts"].as_array().unwrap().iter().map(|x| x.as_u64().unwrap() as usize).collect(),
@@ -779,50 +1053,7 @@ pub fn replay(args: &Args) -> i32 {
 						Some(p) => p["version"].as_u64().unwrap_or(1000) as u32,
 						None => VERSIONS[(ci + pi) % 4],
 					};
-					// A run in which the machine stalled (an unplanned pause of a second, or a read
-					// timeout although the peer was never silent) is outside the property's
-					// quantifier ("within the I/O timeouts"): it is void and repeated.
-					let silent = plan.gaps_us.iter().any(|g| *g >= 1_500_000);
-					let mut out = run_once(&listener, &stream, plan, version);
-					let mut attempts = 1;
-					while (out.max_gap_ms > 1000 || (!silent && out.read.timeouts > 0) || out.io_error.is_some())
-						&& attempts < 4
-					{
-						voids.fetch_add(1, Ordering::Relaxed);
-						out = run_once(&listener, &stream, plan, version);
-						attempts += 1;
-					}
-					if out.io_error.is_none() && (out.max_gap_ms > 1000 || (!silent && out.read.timeouts > 0)) {
-						out.io_error = Some(format!("stalled run (gap {} ms, {} timeouts) 4 times", out.max_gap_ms, out.read.timeouts));
-					}
-					counters[0].fetch_add(1, Ordering::Relaxed);
-					counters[7].fetch_add(stream.len(), Ordering::Relaxed);
-					match plan.kind {
-						"single" => counters[1].fetch_add(1, Ordering::Relaxed),
-						"multi" | "bytewise" => counters[2].fetch_add(1, Ordering::Relaxed),
-						"idle" => counters[3].fetch_add(1, Ordering::Relaxed),
-						_ => 0,
-					};
-					counters[4].fetch_add(out.read.timeouts as usize, Ordering::Relaxed);
-					counters[6].fetch_max(out.read.max_alloc, Ordering::Relaxed);
-					if corrupt && pi == 0 {
-						// self-test of the comparison: pretend the codec returned one result less
-						if out.read.obs.len() >= 2 {
-							out.read.obs.remove(0);
-						}
-					}
-					if let Some(m) = compare(case, &sent, &stream, &out) {
-						if reported < 2 {
-							let f = &case.frames[m.fi];
-							results.lock().unwrap().push(json!({
-								"case": ci, "what": m.what, "detail": m.detail, "frame": m.fi,
-								"k": f.k, "t": f.t, "count": f.count, "items": f.items, "class": case.classes[m.fi],
-								"label": f.label(),
-								"plan": {"cuts": plan.cuts, "gaps_us": plan.gaps_us, "sync": plan.sync, "version": version, "kind": plan.kind},
-								"observed": out.read.obs.iter().map(|o| o.brief()).collect::<Vec<_>>(),
-								"leftover": out.leftover.len(), "bytes_read": out.read.bytes_read,
-							}));
-						}
+					if exec_plan(&sh, &listener, case, &sent, &stream, plan, version, corrupt && pi == 0, reported < 2) {
 						reported += 1;
 					}
 				}
@@ -836,23 +1067,28 @@ pub fn replay(args: &Args) -> i32 {
 		let _ = h.join();
 	}
 	let mut out = NdWriter::create(args.req("out"));
-	let res = results.lock().unwrap();
+	let res = sh.results.lock().unwrap();
 	for r in res.iter() {
 		out.put(r);
 	}
 	out.finish();
-	*stats.lock().unwrap() = json!({
-		"cases": cases.len(), "runs": counters[0].load(Ordering::Relaxed),
-		"single_split_runs": counters[1].load(Ordering::Relaxed),
-		"multi_split_runs": counters[2].load(Ordering::Relaxed),
-		"idle_runs": counters[3].load(Ordering::Relaxed),
-		"timeouts_observed": counters[4].load(Ordering::Relaxed),
-		"frames_checked_against_write_message": counters[5].load(Ordering::Relaxed),
-		"max_single_alloc": counters[6].load(Ordering::Relaxed),
-		"bytes_sent": counters[7].load(Ordering::Relaxed),
+	let c = |i: usize| sh.counters[i].load(Ordering::Relaxed);
+	let stats = json!({
+		"cases": cases.len(), "runs": c(0),
+		"single_split_runs": c(1),
+		"multi_split_runs": c(2),
+		"idle_runs": c(3),
+		"timeouts_observed": c(4),
+		"frames_checked_against_write_message": c(5),
+		"max_single_alloc": c(6),
+		"bytes_sent": c(7),
+		"bodygap_runs": c(8),
+		"bodygap_read_timeouts": c(9),
+		"bodygap_planned": slow.iter().filter(|(_, p)| p.kind == "bodygap").count(),
+		"bodygap_regions": json!(*sh.gap_groups.lock().unwrap()),
 		"mismatches": res.len(),
-		"void_runs_repeated": voids.load(Ordering::Relaxed),
+		"void_runs_repeated": sh.voids.load(Ordering::Relaxed),
 	});
-	println!("{}", stats.lock().unwrap());
+	println!("{}", stats);
 	0
 }
